@@ -49,7 +49,7 @@ pub mod c18 {
     }
 
     /// reader used before later data was flushed, then reads the later data
-    pub fn reuse_after_flush<const H: usize>(n1: usize, n2: usize, start: u64, seq: bool) {
+    pub fn reuse_after_flush<const H: usize>(n1: usize, n2: usize, start: u64, seq: bool, havoc: bool) {
         let mut w = Writer::<H>::create("seg", SEG, start).unwrap();
         let fl = w.flushed_offset();
         let mut r = Reader::<H>::open("seg", Some(fl.clone())).unwrap();
@@ -57,8 +57,10 @@ pub mod c18 {
         let hdr: [u8; H] = kani::any();
         let (o1, l1) = w.append(&hdr, &d1[..n1]).unwrap();
         w.sync().unwrap();
-        // bytes after the flushed offset are whatever a concurrent write(2) has put there so far
-        havoc_tail(fl.load());
+        // bytes after the flushed offset are whatever a concurrent write(2) has put there so far (havoc), or still the
+        // zeros of the preallocated file (no havoc: a stale answer is then a cheap TruncationMarker instead of a record
+        // with a symbolic length, which keeps the harness decidable on a tree that HAS the defect)
+        if havoc { havoc_tail(fl.load()); }
         check_read(&mut r, o1, ReadHint::Sequential, &fl);
 
         let d2 = any_bytes();
